@@ -2,6 +2,7 @@ package main
 
 import (
 	"encoding/hex"
+	"fmt"
 	"strings"
 )
 
@@ -49,4 +50,37 @@ func specialTextVariants() [][]byte {
 		out = append(out, append(append(append([]byte{}, s...), "Pi no"...), s...))
 	}
 	return out
+}
+
+// ---- retention: a value a constructor returned must keep its bytes when the library is used again ----
+// (a result that aliases a pooled or shared buffer reads fine at once and is overwritten by the next call)
+
+type retainedVal struct {
+	what string
+	live []byte
+	copy []byte
+}
+
+var retainRing [24]retainedVal
+var retainN int
+
+func retain(what string, b []byte) {
+	if b == nil {
+		return
+	}
+	retainRing[retainN%len(retainRing)] = retainedVal{what, b, append([]byte{}, b...)}
+	retainN++
+}
+
+// retainCheck returns the first earlier result whose bytes have changed since it was returned ("" = none).
+func retainCheck() string {
+	for i := range retainRing {
+		rv := &retainRing[i]
+		if rv.live != nil && string(rv.live) != string(rv.copy) {
+			msg := fmt.Sprintf("a value returned earlier by %s changed while the library was used again: was %s, now reads %s", rv.what, short(hx(rv.copy)), short(hx(rv.live)))
+			rv.live = nil
+			return msg
+		}
+	}
+	return ""
 }
